@@ -52,6 +52,32 @@ Section C19.
     (forall d fd t (h : heap V) c, k <> k' -> In c (region shape k') -> step shape V result effect t (Fit k d fd) h c = h c).
   Proof. intros k k'. split; [exact (regions_disjoint shape k k')|exact (fun d fd t h c => fit_leaves_other_models shape V result effect k k' d fd t h c)]. Qed.
 
+  (* a contour (or any returned object, or a written file) is never changed by a later operation: design
+     conditions, plotting, saving, evaluations and fits leave the contour they are given as it was built *)
+  Theorem C19_returned_objects_immutable_partial : forall ops t (h : heap V) c, c < t ->
+    run shape V result effect t ops h (Obj c) = h (Obj c) /\ run shape V result effect t ops h (File c) = h (File c).
+  Proof. exact (objects_immutable shape V result effect). Qed.
+
+  (* no operation writes module-level state of virocon (shared by every model) *)
+  Theorem C19_module_state_untouched_partial : forall ops t (h : heap V) g, run shape V result effect t ops h (Glob g) = h (Glob g).
+  Proof. exact (globals_untouched shape V result effect). Qed.
+
+  (* numpy's global random state is advanced only by the unseeded Monte-Carlo entry points; seeded sampling and
+     every random-free evaluation leave it alone.  matplotlib's registry changes only by plotting. *)
+  Theorem C19_global_rng_partial : forall ops t (h : heap V),
+    (forall o k e args, In o ops -> o = Eval k e args -> may_use_rng e = false) -> run shape V result effect t ops h Rng = h Rng.
+  Proof. exact (rng_untouched shape V result effect). Qed.
+  Theorem C19_figures_partial : forall ops t (h : heap V),
+    (forall o k e args, In o ops -> o = Eval k e args -> plots e = false) ->
+    (forall o x args, In o ops -> o <> OnContour x PlotContour args) -> run shape V result effect t ops h Figs = h Figs.
+  Proof. exact (figs_untouched shape V result effect). Qed.
+
+  (* everything a fit writes lies in the region of the fitted model, except the defaults it fills into the caller's
+     fit_descriptions *)
+  Theorem C19_fit_footprint_partial : forall k d fd t c, In c (wset shape t (Fit k d fd)) ->
+    In c (region shape k) \/ (exists a, fd = Some a /\ c = FitDesc a).
+  Proof. exact (fit_footprint shape). Qed.
+
   (* repeatability: a deterministic operation repeated later in a history returns the same object whenever the
      executable test says that nothing it reads was written in between ... *)
   Theorem C19_repeatable_partial : forall ops (h : heap V) i j a, same_result_guaranteed shape ops i j = true ->
@@ -79,7 +105,12 @@ Example C19_nonvacuous :
   let ops := [Eval 0 Pdf [0]; Fit 1 1 None; Eval 0 IFORM []; Eval 0 Pdf [0]; Fit 0 1 (Some 0); Eval 0 Pdf [0]] in
   same_result_guaranteed shape ops 0 3 = true /\ same_result_guaranteed shape ops 0 5 = false /\
   wset shape 4 (Fit 0 1 (Some 0)) = [M 0 (DistParams 0); M 0 (PerInterval 1); M 0 (DepFun 1 0); M 0 (DepFun 1 1); FitDesc 0] /\
-  mem (M 0 (Template 1)) (region shape 0) = true /\ mem (M 0 (Template 1)) (wset shape 4 (Fit 0 1 (Some 0))) = false.
+  mem (M 0 (Template 1)) (region shape 0) = true /\ mem (M 0 (Template 1)) (wset shape 4 (Fit 0 1 (Some 0))) = false /\
+  (* a seeded Monte-Carlo quantile is deterministic and leaves the global random state alone, the unseeded one does not;
+     design conditions on the contour built at step 2 write only their own result *)
+  same_result_guaranteed shape (Eval 0 MarginalIcdfSeeded [2] :: ops) 0 4 = true /\
+  mem Rng (wset shape 0 (Eval 0 MarginalIcdfSeeded [2])) = false /\ mem Rng (wset shape 0 (Eval 0 MarginalIcdf [2])) = true /\
+  wset shape 6 (OnContour 2 DesignConditions []) = [Obj 6].
 Proof. repeat split; reflexivity. Qed.
 
 Print Assumptions C19_frame_partial.
@@ -88,5 +119,10 @@ Print Assumptions C19_cache_partial.
 Print Assumptions C19_arrays_unchanged_partial.
 Print Assumptions C19_template_unchanged_partial.
 Print Assumptions C19_no_shared_state_partial.
+Print Assumptions C19_returned_objects_immutable_partial.
+Print Assumptions C19_module_state_untouched_partial.
+Print Assumptions C19_global_rng_partial.
+Print Assumptions C19_figures_partial.
+Print Assumptions C19_fit_footprint_partial.
 Print Assumptions C19_repeatable_partial.
 Print Assumptions C19_repeatable_unless_refitted_partial.
